@@ -364,7 +364,9 @@ __wrap_getsockopt(int fd, int level, int name, void * val, socklen_t * len)
 	if (lfd < 0) { errno = EBADF; return (-1); }
 	*(int *)val = fn_fds[lfd].conn_err;
 	*len = sizeof(int);
-	vt_begin("getsockopt"); vt_int("fd", lfd); vt_int("err", fn_fds[lfd].conn_err); vt_end();
+	/* premature: asked for the outcome of an attempt that the kernel has not reported as finished (SO_ERROR is 0 until then) */
+	vt_begin("getsockopt"); vt_int("fd", lfd); vt_int("err", fn_fds[lfd].conn_err);
+	vt_bool("premature", fn_fds[lfd].connecting && fk_clock_us < fn_fds[lfd].conn_at); vt_end();
 	if (fn_fds[lfd].conn_err == 0)
 		fn_fds[lfd].connecting = 0;	/* connected: from now on writable according to its tx list */
 	return (0);
